@@ -139,3 +139,28 @@ Proof.
   split; [eapply location_roundtrip; eauto|].
   intros nx i c Gx N. eapply (inv_links _ _ _ I); eauto.
 Qed.
+
+(* ---- round 6: add_measurements inside histories ------------------------------------------------------------------------ *)
+(* one add_measurements step from a state with Inv: cannot run out of fuel / hit a dangling id, and keeps Inv *)
+Lemma step_add_measurements s p ms s' out : sInv s -> step s (OAddMeas p ms) = (s', out) -> out_ok out /\ sInv s'.
+Proof. intros I H. exact (step_basic_total s (OAddMeas p ms) s' out I eq_refl H). Qed.
+
+(* witness: windows added to an inner node (body duration 10: offsets shifted), to a leaf, to the root, between a query and
+   edits that change the durations again; the history is over setters / queries / add_measurements only, so no run_ok
+   hypothesis is needed; the measurement lists afterwards *)
+Definition am_ops : list op :=
+  [OQueryDur []; OAddMeas [1%nat] [(5, 0%Q, 1%Q); (6, 1 # 2, 2%Q)]; OAddMeas [0%nat] [(7, 0%Q, 1%Q)];
+   OSetWf [1%nat; 0%nat] (Some (WConst 3 1)); OAddMeas [1%nat] [(8, 0%Q, 1%Q)]; OSetRepCount [1%nat] 5; OAddMeas [] [(9, 1%Q, 1%Q)];
+   OAddMeas [7%nat] [(9, 1%Q, 1%Q)]; OQueryDur []].
+Definition meas_at (s : state) (p : path) : option (option (list mw)) :=
+  match resolve (st_heap s) (st_root s) p with
+  | Some x => match get (st_heap s) x with Some n => Some (meas n) | None => None end
+  | None => None
+  end.
+Lemma add_measurements_nonvacuous :
+  forallb basic_op am_ops = true /\ forallb guard_C09_args am_ops = true /\
+  outcomes (init_state nv_init) am_ops = [Done; Done; Done; Done; Done; Done; Done; BadPath; Done] /\
+  meas_at (run (init_state nv_init) am_ops) [1%nat] = Some (Some [(1, 0%Q, 1%Q); (5, 10%Q, 1%Q); (6, 21 # 2, 2%Q); (8, 11%Q, 1%Q)]) /\
+  meas_at (run (init_state nv_init) am_ops) [0%nat] = Some (Some [(7, 16%Q, 1%Q)]) /\
+  meas_at (run (init_state nv_init) am_ops) [] = Some (Some [(9, 104%Q, 1%Q)]).
+Proof. repeat split; vm_compute; reflexivity. Qed.
